@@ -9,6 +9,7 @@ let () =
   | "runcache" -> Runcachemodel.run_runcache ic
   | "find" -> Findmodel.run_find ic
   | "glob" -> Globmodel.run_glob ic
+  | "load" -> Loadmodel.run_load ic
   | "report" -> Reportmodel.run_report ic
   | "vars" -> Varsmodel.run_vars ic
   | "clean" -> Cleanmodel.run_clean ic
